@@ -145,12 +145,19 @@ def method (w : Inputs) : Value → String → List Value → St → Option Res
     ask w st (evOp "process_missing_clock_update" args)
   | _, _, _, _ => none
 
+/-- std `vec![a, b, ..]` with two or more elements listed (the translator hands them over one by one; the core's
+    rule covers the one-argument form, which is the macro's expansion): the vector of these elements -/
+def macroCall (_ : Inputs) : String → List Value → St → Option Res
+  | "vec", a :: b :: rest, st => some (.val (.list (a :: b :: rest)) st)
+  | _, _, _ => none
+
 /-- `&mut mailbox`: the `MailBox` is a handle, its borrow is the handle -/
 def refMut (_ : Inputs) : Value → St → Option Res
   | .ext "MailBox" [], st => some (.val (.ext "MailBox" []) st)
   | _, _ => none
 
 /-- the dictionary -/
-def ext : Ext := { Ext.none with path := path, call := call, method := method, refMut := refMut }
+def ext : Ext :=
+  { Ext.none with path := path, call := call, method := method, refMut := refMut, macroCall := macroCall }
 
 end ClockBound.Rs.DictThreads
